@@ -45,7 +45,7 @@ MODEL_FILES = ['Parser/PyStr.v', 'Parser/Lex.v', 'Parser/Format.v', 'Parser/Symb
 K_NAME = ('K_parse + K_text + K_pyast + K_code (extracted Parser / CodeGen models vs fsic.parse_model, Symbol.code/equation, the '
           'CPython ast of Model.CODE, the equations block of Model.CODE) + K_eval (CodeGenF.check_ccase on PrimFloat vs the real _evaluate(t): store, exception, accesses)')
 RULE = ('fixed corpus (doc examples, defect inputs) + EXHAUSTIVE: every statement Y = a | -a | a op b | f(a) | max/min(a, b) (thorough: also a op b op c and '
-        'a op (b op c)) over 12 trap-spelled atoms x 5 operators in two layouts + sampled beyond: arithmetic programs of 1-4 equations with shared variables, trap names '
+        'a op (b op c)) over 14 trap-spelled atoms x 5 operators in two layouts + sampled beyond: arithmetic programs of 1-4 equations with shared variables, trap names '
         '(keyword-prefixed, function-name prefixes, t, T, selfie, leading underscore), lags/leads up to 3 (a minority two-digit), '
         'indexed left-hand sides, + - * / ** unary minus, exp log max min abs, redundant parentheses, random layout (blanks, tabs, '
         'signed/padded indexes, padded braces and angle brackets, wrapped lines, comments, CRLF) x data (nice, random, a share of '
@@ -568,14 +568,16 @@ def gen_text(rng):
 # ============================================================================ kind 'text': exhaustive enumeration up to a size bound
 ENUM_ATOMS = [['T', 'v', 'X', None, 'X'], ['T', 'v', 'X', -1, 'X[-1]'], ['T', 'v', 'X', 1, 'X[+1]'], ['T', 'v', 'is_open', -12, 'is_open[ -12 ]'],
               ['T', 'p', 'a', None, '{a}'], ['T', 'p', 'a', 2, '{ a }[2]'], ['T', 'e', 'e', None, '< e >'], ['T', 'v', 'not_X', None, 'not_X'],
-              ['T', 'v', 'expo', 0, 'expo[0]'], ['T', 'v', 'e5', None, 'e5'], ['N', '2'], ['N', '0.5']]
+              ['T', 'v', 'expo', 0, 'expo[0]'], ['T', 'v', 'e5', None, 'e5'], ['T', 'v', 'log', -1, 'log[-1]'], ['T', 'v', 'min', None, 'min'],
+              ['N', '2'], ['N', '0.5']]
 ENUM_OPS = ['+', '-', '*', '/', '**']
 
 
 def enum_text(tier):
-    """EVERY statement  Y = a | -a | a op b | f(a) | max(a, b) | min(a, b)  [thorough: | a op b op c | a op (b op c)]  over 12 atoms
+    """EVERY statement  Y = a | -a | a op b | f(a) | max(a, b) | min(a, b)  [thorough: | a op b op c | a op (b op c)]  over 14 atoms
     (terms spelled with the traps of the property: signed / padded / two-digit indexes, padded braces and angle brackets,
-    keyword-prefixed and function-prefixed names, explicit [0], a name that looks like an exponent) and 5 operators, in the tight
+    keyword-prefixed and function-prefixed names, series named like the replaced functions, explicit [0], a name that looks like
+    an exponent) and 5 operators, in the tight
     and in the one-blank layout"""
     head = [['T', 'v', 'Y', None, 'Y'], ['=']]
     A, O = ENUM_ATOMS, [['O', o] for o in ENUM_OPS]
@@ -585,7 +587,7 @@ def enum_text(tier):
     bodies += [[['F', f], ['('], a, ['O', ','], b, [')']] for f in ('max', 'min') for a in A for b in A]
     if tier != 'quick':
         bodies += [[a, o1, b, o2, c] for a in A for o1 in O for b in A for o2 in O for c in A]
-        bodies += [[a, o1, ['('], b, o2, c, [')']] for a in A[:6] for o1 in O for b in A[:6] for o2 in O for c in A[:6]]
+        bodies += [[a, o1, ['('], b, o2, c, [')']] for a in A[:6] + A[10:12] for o1 in O for b in A[:6] + A[10:12] for o2 in O for c in A[:4]]
     out = []
     for body in bodies:
         toks = copy.deepcopy(head + body)
@@ -736,6 +738,18 @@ def _unlit(j):
     return [j[0]] + [_unlit(x) if isinstance(x, list) else x for x in j[1:]]
 
 
+def _norm_maxmin(j):
+    """both readings of a program modulo one harmless difference: the model folds max / min of two numeric literals pairwise
+    (max(10, 100, X) -> max(100, X)), evalmodel only folds a call whose arguments are all integer literals; same value either way"""
+    if not isinstance(j, list):
+        return j
+    j = [_norm_maxmin(x) for x in j]
+    if j and j[0] in ('max', 'min') and j[1][0] == 'num' and j[2][0] == 'num':
+        a, b = lib.unhex(j[1][1]), lib.unhex(j[2][1])
+        return j[2] if ((b > a) if j[0] == 'max' else (b < a)) else j[1]
+    return j
+
+
 def _cstr(s):
     return '(%s)%%string' % lib.cstring(s)
 
@@ -797,7 +811,7 @@ def correspond(cases, obs, tag, tier):
             continue
         j = json.loads(a[2:])
         model = [[pc.unhx(h) for h in j['names']], [[s[0], s[1], s[2], _unlit(s[3])] for s in j['prog']]]
-        if model != [o['names'], real]:
+        if _norm_maxmin(model) != _norm_maxmin([o['names'], real]):
             note(i, 'K_pyast', model, [o['names'], real])
     # ---- K_code: the `{equations}` block of the class text (CodeGenBlock.equations_block) vs the tail of the real Model.CODE
     with_block = [i for i in live if obs[i].get('block') is not None]
@@ -938,6 +952,9 @@ def oracle(case, obs):
         return fails
     kind = case['kind']
     if 'syms' not in obs:
+        if kind == 'text' and guard(case, obs) and obs.get('parse_exc') == 'SymbolError':
+            return fails        # a name used as a function AND as a variable in one statement, function first: rejected outright (the
+            #                     other order is finding #19); an explicit rejection of an ambiguous name breaks nothing
         if kind != 'raw' or 'expect' in case:
             bad('parse|' + obs.get('parse_exc', '?'), 'a script inside the documented syntax was not accepted (%s)' % obs.get('parse_exc'))
         return fails
